@@ -140,6 +140,21 @@ def review(ob, prog, roots, table, fshort, stop=(), include_overflow=False, scop
         (fn path without crate prefix, kind, what) -> (max_count, reason[, status])
     status 'ok' (default) or 'finding' (reported as a failure with its own key so that it can be
     listed in known_findings.json). An unlisted site, or more sites than reviewed, is a failure."""
+    import re as _re
+
+    def nk(d):
+        # closure numbering changes whenever a closure is added or removed earlier in the function: key by `{closure}`
+        return _re.sub(r"\{closure#\d+\}", "{closure}", d.replace("alpenglow::", ""))
+    ntable = {}
+    for k, v in table.items():
+        kk = (nk(k[0]), k[1], k[2])
+        if kk in ntable:
+            o_ = ntable[kk]
+            status = "finding" if "finding" in (tuple(o_[2:3]) + tuple(v[2:3])) else None
+            ntable[kk] = (o_[0] + v[0], o_[1] if v[1] in o_[1] else o_[1] + " / " + v[1]) + ((status,) if status else ())
+        else:
+            ntable[kk] = v
+    table = ntable
     U = prog.reachable_from(roots, stop=stop)
     groups = {}
     autos = {}
@@ -157,9 +172,9 @@ def review(ob, prog, roots, table, fshort, stop=(), include_overflow=False, scop
             if auto is not None:
                 why = auto(s, prog)
                 if why:
-                    autos.setdefault((d.replace("alpenglow::", ""), s.kind, s.what, why), []).append(s)
+                    autos.setdefault((nk(d), s.kind, s.what, why), []).append(s)
                     continue
-            groups.setdefault((d.replace("alpenglow::", ""), s.kind, s.what), []).append(s)
+            groups.setdefault((nk(d), s.kind, s.what), []).append(s)
     for k, ss in sorted(groups.items()):
         rev = table.get(k)
         status = rev[2] if rev and len(rev) > 2 else "ok"
